@@ -529,6 +529,7 @@ func checkBlock(c *checkCtx) {
 		}
 	}
 	windowHits := 0
+	nViol := 0
 	for i := range cases {
 		cases[i].Idx = i
 		cs := cases[i]
@@ -552,6 +553,13 @@ func checkBlock(c *checkCtx) {
 		}
 		if res.viol != "" {
 			c.violation(name, map[string]interface{}{"case": cs, "error": res.err, "returned_after": res.returnedIn.String()}, "%s", res.viol)
+			nViol++
+			if nViol >= 3 {
+				// the verdict is settled; a call that never returns usually leaves the event loop wedged, and every further case
+				// would only cost its bounds
+				c.setExtra("stopped_early", fmt.Sprintf("after %d violating cases (%d of %d cases run)", nViol, i+1, len(cases)))
+				return
+			}
 		}
 	}
 	// back-to-back deadline waits on one stream
